@@ -18,6 +18,7 @@ EXPLANATION = (
     "whole step, the loop ends at the first check with the budget used up. ChainPool.advance with Pool replaced by its "
     "in-process map contract advances every chain once by n and keeps their order."
     " ChainPool: 1..4 chains on a machine with 1..3 cores (cpu_count is an environment stub), advanced twice; every chain exactly n steps per call, returned in the caller's order."
+    ' Twin-chain unit: two chains built from the same symbolic inputs whose own generators hand out the same symbolic draws take identical steps (module-level numpy.random functions are an environment stub returning fresh arbitrary numbers). One step of every chain sampler stores exactly one sample and one log-probability on every path through its retry loop.'
 )
 BOUNDS = {"quick": "advance: all m >= 0; ensemble k<=2, 3 walkers, 2 calls; run_for: <=3 loop iterations, step rates <= 3 per second "
                    "(slow steps) plus the zero-elapsed-time corner; pools of 1..4 chains on 1..3 cores",
